@@ -82,7 +82,13 @@ let split_on c s = String.split_on_char c s
 
 let () =
   self_check ();
-  let args = List.filter (fun a -> a <> "--raw" && a <> "--socket") (List.tl (Array.to_list Sys.argv)) in
+  let argl = List.tl (Array.to_list Sys.argv) in
+  let rec find_ni = function "--ni" :: p :: _ -> Some p | _ :: t -> find_ni t | [] -> None in
+  let ni_path = find_ni argl in
+  let ni_out = Buffer.create 256 in
+  let cur_case = ref "" in
+  let rec drop_ni = function "--ni" :: _ :: t -> drop_ni t | x :: t -> x :: drop_ni t | [] -> [] in
+  let args = List.filter (fun a -> a <> "--raw" && a <> "--socket") (drop_ni argl) in
   let raw = List.mem "--raw" (Array.to_list Sys.argv) in
   let socket = List.mem "--socket" (Array.to_list Sys.argv) in
   let ic = match args with f :: _ -> open_in f | [] -> stdin in
@@ -120,6 +126,7 @@ let () =
       match split_on ' ' line with
       | ["CASE"; id; il; ml] ->
           let ml = if ml = "none" then None else Some (n_of_string ml) in
+          cur_case := id;
           w := init_world (n_of_string il) ml;
           Printf.fprintf oc "CASE %s\n" id
       | ["CASE"; id; il; ml; cas0; now0] ->
@@ -237,6 +244,9 @@ let () =
             | _ -> failwith "bad TH line") !conc_threads in
           conc_threads := [];
           let sched = if sched = "-" then [] else List.map (fun x -> nat_of_int (int_of_string x)) (split_on ',' sched) in
+          (* does the schedule keep clear of the read-modify-write windows (Spec/AtomicM.v)? *)
+          let ni = ni_sched now sched threads { sh_mem = st.s_mem; sh_cas = st.s_cas } in
+          Buffer.add_string ni_out (Printf.sprintf "%s %d\n" !cur_case (if ni then 1 else 0));
           let (ts, sh) = run_sched now (mprog_of now) sched threads { sh_mem = st.s_mem; sh_cas = st.s_cas } in
           let show (r : opres) = match r with
             | OGetR (ROk r) -> Printf.sprintf "hit:%s:%s:%s" (hex_of_bytes r.r_val) (string_of_n r.r_flags) (string_of_n r.r_cas)
@@ -252,4 +262,7 @@ let () =
       | _ -> failwith ("bad trace line: " ^ line)
     done
   with End_of_file -> ());
+  (match ni_path with
+   | Some p -> let o = open_out p in Buffer.output_buffer o ni_out; close_out o
+   | None -> ());
   Stdlib.flush oc
